@@ -55,6 +55,9 @@ def make_case(seed, idx, tier):
         d["sprout"] = {"k": "custom", "gen": {"k": "nbc", "df": 1.0, "trunc": 1.0}, "dfilters": [{"k": "demelimit", "n": 3}], "tfilters": [{"k": "levellimit", "n": 4}], "ll": 4}
         d["gsc"] = {"k": "melimit", "n": 5}
         d["force_subprocess"] = True
+    for lv in d["levels"]:
+        if lv["engine"] == "sea_adapt" and rng.random() < 0.6:
+            lv["mutation_std_array"] = len(d["box"]["bounds"])  # per-dimension width given as an ndarray
     d["options"]["random_seed"] = rng.randint(0, 10**6) if idx % 6 else 0  # 0 is a legal seed
     if idx % 12 == 5:
         d["options"]["random_seed"] = 2**32 - 2
@@ -145,6 +148,22 @@ def run_case(desc):
                 f"seeded repeat differs across processes / PYTHONHASHSEED: first difference in {_first_diff_class(s1, s3)}",
                 {"differences": diff_snapshots(s1, s3), "engines": gen.engine_mix(desc), "hashseed": hs},
             )
+    # the same configuration *objects* run twice in one process (the most literal reading of "two runs of the same
+    # configuration"): nothing the first run does to the objects it was handed may change the second
+    stateful = any(st.startswith(("cutoff", "prec")) for lv in desc["levels"] for st in lv.get("stack", []))
+    if desc.get("kind") != "minimize" and not stateful and desc["gsc"]["k"] != "precision":
+        from ..observe import public_snapshot
+
+        ca, cb = harness.run_reuse_pair(desc, lambda: [], second_seed_offset=0, same_np_seed=False)
+        if not ca.aborted and not cb.aborted and ca.tree is not None and cb.tree is not None:
+            cov["same_config_objects_run_twice"] += 1
+            sa, sb = public_snapshot(ca.tree, with_text=False), public_snapshot(cb.tree, with_text=False)
+            if snapshot_digest(sa) != snapshot_digest(sb):
+                c1.violation(
+                    "C14",
+                    f"second seeded run from the same configuration objects differs from the first: first difference in {_first_diff_class(sa, sb)}",
+                    {"differences": diff_snapshots(sa, sb), "engines": gen.engine_mix(desc)},
+                )
     n_demes = len(s1.get("demes", []))
     per = Counter((dm["level"], dm["started_at"]) for dm in s1.get("demes", []) if dm["level"] > 0 and dm["class"] in ("CMADeme", "LHSDeme", "SobolDeme"))
     if any(v >= 2 for v in per.values()):
